@@ -250,14 +250,16 @@ TypedOnly(env, s, d, D) ==
                               \A i \in DOMAIN d.a : TypedOnly(env, s.items, d.a[i], D))
       \* fields of the anonymous struct: object-typed properties are DECLARED types again (their own
       \* unmarshaler runs), everything else is decoded by type only
-      [] T = "object"  -> d.t = "obj" /\ \A k \in PropNames(s) \cap ObjKeys(d) :
-                             LET ps == PropSchema(s, k) IN
-                             IF Main(ps) = "object" /\ ~Has(ps, "ref")
-                             THEN Valid(env, ps, ObjVal(d, k), D, "field", NoLim) # Rej
-                             ELSE TypedOnly(env, ps, ObjVal(d, k), D)
-                          \* a map type (no declared properties, typed additionalProperties): every member by type
-                          /\ (Props(s) = <<>> /\ Has(s, "additionalProperties") /\ s.additionalProperties.k = "s" =>
-                                \A k \in ObjKeys(d) : TypedOnly(env, s.additionalProperties.s, ObjVal(d, k), D))
+      [] T = "object"  ->
+           /\ d.t = "obj"
+           /\ (\A k \in PropNames(s) \cap ObjKeys(d) :
+                 LET ps == PropSchema(s, k) IN
+                 IF Main(ps) = "object" /\ ~Has(ps, "ref")
+                 THEN Valid(env, ps, ObjVal(d, k), D, "field", NoLim) # Rej
+                 ELSE TypedOnly(env, ps, ObjVal(d, k), D))
+           \* a map type (no declared properties, typed additionalProperties): every member by type
+           /\ ((Props(s) = <<>> /\ Has(s, "additionalProperties") /\ s.additionalProperties.k = "s") =>
+                 (\A m \in ObjKeys(d) : TypedOnly(env, s.additionalProperties.s, ObjVal(d, m), D)))
       [] OTHER -> TRUE
 
 RECURSIVE ValidObj(_, _, _, _)
